@@ -70,17 +70,17 @@ type seqInst struct {
 }
 
 type seqSub struct {
-	inst   *seqInst
-	gen    int
-	entry  *seqEntry
-	low    bool
-	source string
-	done   chan struct{}
-	idx    int64
-	ts     int64
-	err    error
-	got    bool
-	seq    int
+	inst      *seqInst
+	gen       int
+	entry     *seqEntry
+	low       bool
+	source    string
+	done      chan struct{}
+	idx       int64
+	ts        int64
+	err       error
+	got       bool
+	seq       int
 	le        any
 	dropped   bool
 	afterStop bool
@@ -105,15 +105,15 @@ type seqWorld struct {
 	locks    map[[32]byte][]byte
 	// earlier values of the lock entry, oldest first (a lock database restored from a backup)
 	lockVersions [][]byte
-	clock   int64
-	insts   []*seqInst
-	entries []*seqEntry
-	subs    []*seqSub
-	faults  map[string]int
-	orc     *seqOracle
-	nEvents int
-	sid     int
-	logbuf  *bytes.Buffer
+	clock        int64
+	insts        []*seqInst
+	entries      []*seqEntry
+	subs         []*seqSub
+	faults       map[string]int
+	orc          *seqOracle
+	nEvents      int
+	sid          int
+	logbuf       *bytes.Buffer
 
 	graveyard []*ctlog.Log
 	mute      bool
